@@ -119,12 +119,18 @@ def primer_for(case, n):
     return body + " " + choices[n % len(choices)]
 
 
-def check_case(ctx, case, mode, primer=None):
+BODY_FORMATS = ["%Y-%m-%d %H:%M", "%d %B %Y %H:%M:%S", "%B %d, %Y %I:%M %p"]
+
+
+def check_case(ctx, case, mode, primer=None, with_formats=False):
     import dateparser
 
     kind, entry, spn, spelled, off, bi, tail = case
     body, exp = BODIES[bi]
     s = body + " " + spelled + tail
+    # optionally the caller also supplies the format of the body (which does not mention the zone): the zone written in the
+    # string still has to come out
+    fkw = {"date_formats": [BODY_FORMATS[bi]]} if with_formats else {}
     if primer is not None:
         try:
             dateparser.parse(primer, languages=["en"]) if mode == "en" else dateparser.parse(primer)
@@ -133,13 +139,13 @@ def check_case(ctx, case, mode, primer=None):
         ctx.count("primed_cases")
     del _POP[:]
     try:
-        r = dateparser.parse(s, languages=["en"]) if mode == "en" else dateparser.parse(s)
+        r = dateparser.parse(s, languages=["en"], **fkw) if mode == "en" else dateparser.parse(s, **fkw)
     except Exception as e:
         r = e
     ctx.ran()
     popped = [p for p in _POP if p is not None]
     cj = {"kind": kind, "entry": entry, "spelling": spn, "string": s, "mode": mode, "body": bi, "tail": tail,
-          "offset_s": off, "primer": primer}
+          "offset_s": off, "primer": primer, "with_formats": with_formats}
     want = timedelta(seconds=off)
     why = None
     if not isinstance(r, datetime):
@@ -169,7 +175,9 @@ def check_case(ctx, case, mode, primer=None):
                        "tail": bool(tail)})
         return
     if popped or not _TAP_OK:
-        ctx.nontrivial(kind, entry, spn, bi, tail, mode, primer)
+        ctx.nontrivial(kind, entry, spn, bi, tail, mode, primer, with_formats)
+        if with_formats:
+            ctx.count("with_body_format_ok")
         ctx.count("popped_ok")
     else:
         ctx.count("off_path:not-popped-yet-correct")
@@ -188,6 +196,11 @@ def run_shard(ctx, desc):
                 check_case(ctx, c, "en")
                 check_case(ctx, c, "auto")
                 ctx.count("entries:%s" % c[0])
+            # the same zone when the caller supplies the body's format
+            for n, c in enumerate(cases):
+                if ctx.tier == "quick" and n % 3:
+                    continue
+                check_case(ctx, c, "en" if n % 2 else "auto", with_formats=True)
             # primed pass: the same cases, each right after a call that found another (overlapping) zone spelling
             for n, c in enumerate(cases):
                 if c[0] == "abbr" and ctx.tier == "quick" and n % 3:
@@ -267,6 +280,6 @@ def replay_case(ctx, v):
         return
     for case in all_cases("thorough"):
         if (case[0], case[1], case[2], case[5], case[6]) == (c["kind"], c["entry"], c["spelling"], c["body"], c["tail"]):
-            check_case(ctx, case, c["mode"], primer=c.get("primer"))
+            check_case(ctx, case, c["mode"], primer=c.get("primer"), with_formats=bool(c.get("with_formats")))
             return
     raise SystemExit("case not found in the current table")
